@@ -696,6 +696,10 @@ struct Registrants(Vec<usize>);
 struct Target {
     live: Vec<usize>,
     closed_any: bool,
+    /// the most recent registrant of the string, if it is still live: registering a RID / MID
+    /// again replaces the earlier registration, so this is the receiver the string identifies
+    /// now - whatever happened to earlier registrants
+    current: Option<usize>,
 }
 
 struct Model {
@@ -723,7 +727,8 @@ impl Model {
                 live.push(l);
             }
         }
-        Some(Target { live, closed_any })
+        let current = r.0.last().copied().filter(|&l| !ls[l].closed);
+        Some(Target { live, closed_any, current })
     }
 }
 
@@ -755,6 +760,9 @@ fn judge(
         if !t.closed_any {
             return Err(("ii", format!("rid registered to {:?}", t.live)));
         }
+        if let Some(c) = t.current {
+            return Err(("ii", format!("rid currently registered to {c} (earlier registrants closed)")));
+        }
     }
     if let Some(t) = Model::target(&m.mid, mid, ls) {
         if t.live.contains(&l) {
@@ -762,6 +770,9 @@ fn judge(
         }
         if !t.closed_any {
             return Err(("iii", format!("mid registered to {:?}", t.live)));
+        }
+        if let Some(c) = t.current {
+            return Err(("iii", format!("mid currently registered to {c} (earlier registrants closed)")));
         }
     }
     let st = m.ssrc.get(&ssrc).cloned().unwrap_or_default();
